@@ -68,7 +68,7 @@ def gen_slq(rng, quick=True):
 
 
 def gen_elbo(rng, quick=True, mode=None):
-    n = rng.randint(2 if mode else 1, 4 if quick else 8)
+    n = rng.randint(2 if mode else 1, 4 if quick else 6)
     m = {"wide": rng.randint(1, n - 1), "square": n, "tall": n + rng.randint(1, 2)}[mode] if mode else rng.randint(1, n + 1)
     R = [[rng.randint(-2, 2) for _ in range(n)] for _ in range(m)]
     Sd = [rng.choice([Fraction(1, 2), Fraction(1), Fraction(2), Fraction(4)]) for _ in range(m)]
@@ -107,6 +107,68 @@ def real_slq(c):
         z = np.asarray(jax.random.rademacher(jax.random.split(key, 2)[0], shape=(c["n_samples"], n), dtype=jnp.float64))
         return dict(est=est, est_jit=estj, probes=z)
     return safe(go)
+
+
+
+def gen_slq2(rng, quick=True):
+    n = rng.randint(3, 5 if quick else 8)
+    ns = rng.randint(2, 7)
+    return dict(sub="slq2", n=n, A=[[rs(x) for x in r] for r in gen_spd(rng, n)], n_samples=ns,
+                batch=rng.choice([None, 1, 2, 3]), deflate=rng.randint(0, 2), mode=rng.choice(["none", "partial", "full"]),
+                key=rng.randint(0, 2 ** 31 - 1), callable=rng.random() < 0.5)
+
+
+def real_slq2(c):
+    """`_slq_gauss_radau` (the routine the ELBO uses for its remainder) with deflation, batching, re-orthogonalisation modes
+    and an extra function; plus the probes it draws, regenerated from the key"""
+    def go():
+        jax = jax_setup()
+        import jax.numpy as jnp
+        from nifty.re.num import lanczos
+        A = jnp.array([fll(r) for r in c["A"]])
+        n, ns = c["n"], c["n_samples"]
+        w, Qf = np.linalg.eigh(np.asarray(A))
+        Q = jnp.array(Qf[:, ::-1][:, :c["deflate"]]) if c["deflate"] else None
+        key = jax.random.PRNGKey(c["key"])
+        mat = (lambda x: A @ x) if c["callable"] else A
+        out = lanczos._slq_gauss_radau(mat, jnp.log, n, ns, key=key, n=n, deflate_eigvecs=Q, reorthogonalize=c["mode"],
+                                       probe_batch_size=c["batch"], extra_fns={"inv": lambda x: 1.0 / x})
+        default_B = 8 if c["callable"] else 32
+        B = min(default_B, ns) if c["batch"] is None else min(c["batch"], ns)
+        nb, rem = divmod(ns, B)
+        keys = jax.random.split(key, nb + 1)
+        zs = [np.asarray(jax.random.rademacher(keys[i], shape=(B, n), dtype=jnp.float64)) for i in range(nb)]
+        if rem:
+            zs.append(np.asarray(jax.random.rademacher(keys[nb], shape=(rem, n), dtype=jnp.float64)))
+        return dict(est=float(out["estimate"]), se=float(out["stochastic_se"]), inv=float(out["extra_inv_estimate"]),
+                    inv_se=float(out["extra_inv_se"]), probes=np.concatenate(zs, axis=0))
+    return safe(go)
+
+
+def _oracle_slq2(c):
+    r = real_slq2(c)
+    sig = dict(sub="slq2", mode=c["mode"])
+    if is_err(r):
+        return (f"_slq_gauss_radau raised {r['error']}", dict(sig, what="error", error=r["error"]))
+    A = np.array([fll(x) for x in c["A"]])
+    w, Q = np.linalg.eigh(A)
+    logA, invA = (Q * np.log(w)) @ Q.T, (Q * (1.0 / w)) @ Q.T
+    Qd = Q[:, ::-1][:, :c["deflate"]]
+    Z = r["probes"] - (r["probes"] @ Qd) @ Qd.T if c["deflate"] else r["probes"]
+    vals = np.array([z @ logA @ z for z in Z])
+    ivals = np.array([z @ invA @ z for z in Z])
+    tol = 1e-8 if c["mode"] == "full" else 1e-6
+    sc = max(1.0, float(np.max(np.abs(vals))))
+    for name, got, v in (("estimate", r["est"], vals), ("extra function estimate", r["inv"], ivals)):
+        if not abs(got - float(v.mean())) <= tol * sc:
+            return (f"_slq_gauss_radau {name} {got!r} is not the mean {float(v.mean())!r} of the (deflated) probes' exact "
+                    f"quadratic forms at order = dimension", dict(sig, what="probe_identity"))
+    for name, got, v in (("stochastic_se", r["se"], vals), ("extra se", r["inv_se"], ivals)):
+        want = float(np.sqrt(v.var(ddof=1) / len(v)))
+        if not abs(got - want) <= max(tol * sc, 1e-6 * want):
+            return (f"_slq_gauss_radau {name} {got!r} is not sqrt(sample variance / num_samples) = {want!r} "
+                    f"(Welford merge over {len(v)} probes in batches)", dict(sig, what="welford_se"))
+    return None
 
 
 def _oracle_lanczos(c):
@@ -358,7 +420,7 @@ real_lanczos, real_slq, real_elbo = _cached(real_lanczos), _cached(real_slq), _c
 
 
 def oracle(case):
-    return {"lanczos": _oracle_lanczos, "slq": _oracle_slq, "elbo": _oracle_elbo, "welford": _oracle_welford,
+    return {"lanczos": _oracle_lanczos, "slq": _oracle_slq, "slq2": _oracle_slq2, "elbo": _oracle_elbo, "welford": _oracle_welford,
             "batches": lambda c: None}[case["sub"]](case)
 
 
@@ -402,7 +464,7 @@ def run(ctx):
     lz = [gen_lanczos(rng, ctx.quick) for _ in range(ctx.n(5, 100))]
     sq = [gen_slq(rng, ctx.quick) for _ in range(ctx.n(3, 40))]
     el = [gen_elbo(rng, ctx.quick, mode=md) for md in ("wide", "square", "tall")]      # fewer / as many / more data than dofs
-    el += [gen_elbo(rng, ctx.quick) for _ in range(ctx.n(0, 20))]
+    el += [gen_elbo(rng, ctx.quick) for _ in range(ctx.n(0, 10))]
     wf = [dict(sub="welford", a=[rs(dyadic(rng, -4, 4, 2)) for _ in range(rng.randint(1, 5))],
                b=[rs(dyadic(rng, -4, 4, 2)) for _ in range(rng.randint(1, 5))]) for _ in range(ctx.n(6, 80))]
     bt = [dict(sub="batches", n_eig=rng.randint(1, 12), n_batches=rng.randint(1, 5), skip=0) for _ in range(ctx.n(6, 80))]
@@ -438,6 +500,13 @@ def run(ctx):
     for c in sq:
         ctx.case(c, c["n"] >= 2)
         ctx.stat(f"slq:n={c['n']},probes={c['n_samples']},{'callable' if c['callable'] else 'matrix'}")
+        res = oracle(c)
+        if res is not None:
+            ctx.counterexample(c, *res)
+    for _ in range(ctx.n(4, 40)):
+        c = gen_slq2(rng, ctx.quick)
+        ctx.case(c, True)
+        ctx.stat(f"slq2:{c['mode']},deflate={c['deflate']},batch={c['batch']}")
         res = oracle(c)
         if res is not None:
             ctx.counterexample(c, *res)
